@@ -354,7 +354,7 @@ func genReflect(repo string) (string, error) {
 	for _, r := range []fnRef{
 		{ff, "AnyField", "ToJ5Field"}, {ff, "EnumField", "ToJ5Field"}, {ff, "ObjectField", "ToJ5Field"}, {ff, "OneofField", "ToJ5Field"},
 		{ff, "MapField", "ToJ5Field"}, {ff, "ArrayField", "ToJ5Field"},
-		{fr, "EnumOption", "ToJ5EnumValue"}, {fr, "EnumSchema", "ToJ5Root"}, {fr, "ObjectSchema", "ToJ5Object"}, {fr, "OneofSchema", "ToJ5Root"},
+		{fr, "EnumOption", "ToJ5EnumValue"}, {fr, "EnumSchema", "ToJ5Root"}, {fr, "ObjectSchema", "ToJ5Object"}, {fr, "ObjectSchema", "ToJ5Root"}, {fr, "OneofSchema", "ToJ5Root"},
 		{fr, "ObjectProperty", "ToJ5Proto"},
 	} {
 		d := funcDecl(r.file, r.recv, r.name)
@@ -373,6 +373,30 @@ func genReflect(repo string) (string, error) {
 		}
 		importSites = append(importSites, literalSites(d, r.name)...)
 	}
+	// every field selection x.A.B (source text) and every type-switch / getter in the bodies of the import
+	// functions (schemaFromDesc ... plus buildRoot / buildSchemas, which read Ref and the root alternatives):
+	// what the import READS of the source form, wherever it reads it
+	importReads := map[string]bool{}
+	for _, r := range []fnRef{
+		{fd, "Package", "schemaFromDesc"}, {fd, "Package", "objectSchemaFromDesc"}, {fd, "Package", "oneofSchemaFromDesc"},
+		{fd, "Package", "enumSchemaFromDesc"}, {fd, "Package", "objectPropertyFromDesc"}, {fd, "Package", "buildRoot"},
+	} {
+		d := funcDecl(r.file, r.recv, r.name)
+		if d == nil {
+			return "", fmt.Errorf("%s.%s not found", r.recv, r.name)
+		}
+		ast.Inspect(d.Body, func(n ast.Node) bool {
+			if se, ok := n.(*ast.SelectorExpr); ok {
+				importReads[r.name+": "+exprString(se)] = true
+			}
+			return true
+		})
+	}
+	var reads []string
+	for k := range importReads {
+		reads = append(reads, k)
+	}
+	sort.Strings(reads)
 	sb.WriteString("(* keyed composite literals (enclosing case labels, literal type, keys) of the export functions\n   ToJ5Field / ToJ5Root / ToJ5Object / ToJ5EnumValue / ToJ5Proto, lib/j5schema/{field,root}_schema.go *)\n")
 	sb.WriteString(sitesTerm("export_sites", exportSites))
 	sb.WriteString("(* the same for the import: schemaFromDesc, objectSchemaFromDesc, oneofSchemaFromDesc, enumSchemaFromDesc,\n   objectPropertyFromDesc, lib/j5schema/schema_from_desc.go (\"assign\" = a later `x.K = ...`) *)\n")
@@ -380,6 +404,7 @@ func genReflect(repo string) (string, error) {
 	sb.WriteString("(* the same sites with the source text of each value *)\n")
 	sb.WriteString(rhsTerm("export_rhs", exportSites))
 	sb.WriteString(rhsTerm("import_rhs", importSites))
+	fmt.Fprintf(&sb, "(* every selector expression in the bodies of the import functions, as \"function: x.A.B\" *)\nDefinition import_reads : list string := %s.\n", coqStrList(reads))
 
 	// intKinds / floatKinds map keys
 	for _, vn := range []string{"intKinds", "floatKinds"} {
@@ -406,5 +431,56 @@ func genReflect(repo string) (string, error) {
 		sort.Strings(keys)
 		fmt.Fprintf(&sb, "(* schema_from_desc.go var %s *)\nDefinition %s : list string := %s.\n", vn, vn, coqStrList(keys))
 	}
+	// every message of j5/schema/v1/schema.proto as protoc-gen-go renders it: struct name and the
+	// members that carry a proto field (tag protobuf) or a oneof (tag protobuf_oneof), in declaration
+	// order; the oneof wrapper structs (Field_Object, ObjectField_Ref ...) are structs of the file too
+	fpb, err := parse("gen/j5/schema/v1/schema_j5pb/schema.pb.go")
+	if err != nil {
+		return "", err
+	}
+	type pbStruct struct {
+		name    string
+		members []string
+	}
+	var structs []pbStruct
+	for _, dcl := range fpb.Decls {
+		gd, ok := dcl.(*ast.GenDecl)
+		if !ok || gd.Tok != token.TYPE {
+			continue
+		}
+		for _, sp := range gd.Specs {
+			ts, ok := sp.(*ast.TypeSpec)
+			if !ok {
+				continue
+			}
+			st, ok := ts.Type.(*ast.StructType)
+			if !ok {
+				continue
+			}
+			var ms []string
+			for _, f := range st.Fields.List {
+				if f.Tag == nil || len(f.Names) != 1 {
+					continue
+				}
+				tag, _ := strconv.Unquote(f.Tag.Value)
+				if strings.Contains(tag, "protobuf:\"") || strings.Contains(tag, "protobuf_oneof:\"") {
+					ms = append(ms, f.Names[0].Name)
+				}
+			}
+			if len(ms) > 0 {
+				structs = append(structs, pbStruct{ts.Name.Name, ms})
+			}
+		}
+	}
+	sort.Slice(structs, func(i, j int) bool { return structs[i].name < structs[j].name })
+	sb.WriteString("(* gen/j5/schema/v1/schema_j5pb/schema.pb.go: every struct that carries proto fields (the messages of\n   schema.proto and their oneof wrappers) with its proto-field members in declaration order *)\n")
+	sb.WriteString("Definition schema_structs : list (string * list string) := [\n")
+	for i, st := range structs {
+		if i > 0 {
+			sb.WriteString(";\n")
+		}
+		fmt.Fprintf(&sb, "  (%s, %s)", strconv.Quote(st.name), coqStrList(st.members))
+	}
+	sb.WriteString("\n].\n")
 	return sb.String(), nil
 }
